@@ -111,7 +111,10 @@ def flatten_or(e):
 def shift_term(e, resolver):
     """(operand expr, shift) for X << k, X * 2**k, np.left_shift(X, k), X."""
     if isinstance(e, ast.BinOp) and isinstance(e.op, ast.LShift):
-        k = try_fold(e.right, resolver=resolver)
+        amount = e.right
+        while isinstance(amount, ast.Call) and call_name(amount) in ('uint64', 'int64', 'int', 'uint32', 'int32') and len(amount.args) == 1:
+            amount = amount.args[0]
+        k = try_fold(amount, resolver=resolver)
         if isinstance(k, int):
             return e.left, k
         raise AnalysisError('C06: shift amount %s is not a constant' % src(e.right))
@@ -258,6 +261,19 @@ def find_pack(fa):
         raise AnalysisError('C06: %s has %d value returns, expected exactly one pack expression' % (fa.func.qualname, len(rets)))
     e = fa.deep(rets[0].value)
     terms = flatten_or(e)
+    if len(terms) < 2 and isinstance(e, ast.Name):
+        # accumulated form: acc = np.zeros(...) / 0, then acc |= term (or +=) in straight-line code
+        body = fa.func.node.body
+        init = [st for st in body if isinstance(st, ast.Assign) and src(st.targets[0]) == e.id]
+        accs = [st for st in body if isinstance(st, ast.AugAssign) and src(st.target) == e.id and isinstance(st.op, (ast.BitOr, ast.Add))]
+        others = [st for st in walk_local(fa.func.node) if isinstance(st, (ast.Assign, ast.AugAssign)) and st not in init and st not in accs
+                  and any(isinstance(t, ast.Name) and t.id == e.id for t in (st.targets if isinstance(st, ast.Assign) else [st.target]))]
+        zero = len(init) == 1 and ((isinstance(init[0].value, ast.Call) and call_name(init[0].value) in ('zeros', 'zeros_like', 'uint64', 'int64')) or try_fold(init[0].value) == 0)
+        if zero and len(accs) >= 2 and not others and all(a.lineno > init[0].lineno for a in accs):
+            terms = []
+            for a in accs:
+                terms.extend(flatten_or(a.value))
+            e = accs[0].value            # anchor for dominance queries: guards must precede the first accumulation
     if len(terms) < 2:
         raise AnalysisError('C06: return value of %s is not an OR of shifted fields: %s' % (fa.func.qualname, src(e)[:80]))
     return rets[0], e, terms
